@@ -90,6 +90,14 @@ fn put_spans_and_labels(
         let rsjsonnet_lang::span::SpanContext::Source(src_id) = *span_mgr.get_context(span_ctx);
         let snippet = src_mgr.get_file_snippet(src_id);
         let (line, col) = snippet.src_pos_to_line_col(span_start);
+        // A span that covers only characters without display width (byte order mark,
+        // zero width space, a lone combining mark) is annotated like an empty span at
+        // its start; `sourceannot` does not accept a non-empty span of width zero.
+        let span_end = if snippet.src_pos_to_line_col(span_end) == (line, col) {
+            span_start
+        } else {
+            span_end
+        };
 
         by_src
             .entry(src_id)
